@@ -1,7 +1,7 @@
 //verif:pkg pkg/sidecar/param
 //verif:assume reference decoder written from the documented format and the shipped shell decoder (hack/fuse-demo/wrap_datamon.sh, deserialize_dict): the first two characters are the item and key/value separators; the rest is split on the item separator (empty items dropped); an item holding the key/value separator is name / value (second field), an item without it is a flag set to true
 //verif:assume package reflect is modelled for the value-walking subset the encoder uses (ValueOf, Kind, NumField, Field, Type().Field(i).PkgPath, Interface, Len, Index)
-//verif:assume parameter values: printable ASCII bytes (0x20..0x7e), every byte symbolic; FUSE: coordination point 1 symbolic byte, bundle source path 0..2 symbolic bytes, destination label empty or a fixed letter (thorough: source repo and destination label 0..1 symbolic byte), the other bundle fields empty, sleep flag both ways; PG: coordination point 1 symbolic byte, ports {1, 5432, 65535}, source label 0..1 symbolic byte, source repo and source bundle empty or a fixed letter (thorough: source repo, source bundle and destination message 0..1 symbolic byte)
+//verif:assume parameter values: printable ASCII bytes (0x20..0x7e), every byte symbolic; FUSE: coordination point 1 symbolic byte, bundle source path 0..2 symbolic bytes, destination label empty or a fixed letter (thorough: also the source repo 0..1 symbolic byte), the other bundle fields empty, sleep flag both ways; PG: coordination point 1 symbolic byte, ports {1, 5432, 65535}, source label 0..1 symbolic byte, source repo and source bundle empty or a fixed letter (thorough: also the destination message 0..1 symbolic byte)
 //verif:cover VerifC21FUSE encoded bundle-with-name-only separator-moved-off-default
 //verif:cover VerifC21PG encoded source-without-repo
 package param
@@ -83,11 +83,11 @@ func VerifC21FUSE() {
 	maxPath := 3 // 0..2 symbolic bytes
 	srcPath := vPrintable("srcPath", vChoose("srcPathLen", maxPath))
 	srcRepo, destLabel := "", ""
+	if vChoose("destLabelSet", 2) == 1 {
+		destLabel = "L"
+	}
 	if vThorough() {
 		srcRepo = vPrintable("srcRepo", vChoose("srcRepoLen", 2))
-		destLabel = vPrintable("destLabel", vChoose("destLabelLen", 2))
-	} else if vChoose("destLabelSet", 2) == 1 {
-		destLabel = "L"
 	}
 	sleep := vChoose("sleep", 2) == 1
 	var p FUSEParams
@@ -156,18 +156,16 @@ func VerifC21PG() {
 	vUnwind(100000)
 	coord := vPrintable("coord", 1)
 	srcRepo := ""
-	if vThorough() {
-		srcRepo = vPrintable("srcRepo", vChoose("srcRepoLen", 2))
-	} else if vChoose("srcRepoSet", 2) == 1 {
+	if vChoose("srcRepoSet", 2) == 1 {
 		srcRepo = "R"
 	}
 	srcLabel := vPrintable("srcLabel", vChoose("srcLabelLen", 2))
 	srcBundle, destMsg := "", ""
-	if vThorough() {
-		srcBundle = vPrintable("srcBundle", vChoose("srcBundleLen", 2))
-		destMsg = vPrintable("destMsg", vChoose("destMsgLen", 2))
-	} else if vChoose("srcBundleSet", 2) == 1 {
+	if vChoose("srcBundleSet", 2) == 1 {
 		srcBundle = "B"
+	}
+	if vThorough() {
+		destMsg = vPrintable("destMsg", vChoose("destMsgLen", 2))
 	}
 	port := []int{1, 5432, 65535}[vChoose("port", 3)]
 	sleep := vChoose("sleep", 2) == 1
